@@ -5,6 +5,7 @@ package scheduler
 import (
 	"fmt"
 	"sort"
+	"time"
 
 	remoteexecution "github.com/bazelbuild/remote-apis/build/bazel/remote/execution/v2"
 	"github.com/buildbarn/bb-remote-execution/pkg/proto/remoteworker"
@@ -44,16 +45,30 @@ type VerifOperation struct {
 
 // VerifTask describes a single task.
 type VerifTask struct {
-	ActionDigest    string
-	DesiredState    *remoteworker.DesiredState_Executing // Shared with the scheduler; read-only.
-	Stage           remoteexecution.ExecutionStage_Value
-	ExecuteResponse *remoteexecution.ExecuteResponse
-	WorkerKey       string
-	QueueName       string // "instance name prefix|platform|size class"
-	Operations      []VerifOperation
-	HasLearner      bool
-	RetryCount      int
-	InDedupMap      bool
+	ActionDigest     string
+	DesiredState     *remoteworker.DesiredState_Executing // Shared with the scheduler; read-only.
+	Stage            remoteexecution.ExecutionStage_Value
+	ExecuteResponse  *remoteexecution.ExecuteResponse
+	WorkerKey        string
+	QueueName        string // "instance name prefix|platform|size class"
+	Operations       []VerifOperation
+	HasLearner       bool
+	RetryCount       int
+	InDedupMap       bool
+	ExpectedDuration time.Duration
+}
+
+// VerifInvocation describes a single node of the invocation tree of a
+// size class queue.
+type VerifInvocation struct {
+	QueueName                    string
+	IDs                          []string
+	LastOperationStarted         int64 // UnixNano
+	FirstQueuedOperationPriority int32
+	ExecutingWorkers             int
+	DirectlyQueued               int
+	QueuedChildren               int
+	IdleWorkers                  uint32
 }
 
 // VerifWorker describes a single worker.
@@ -73,6 +88,8 @@ type VerifSnapshot struct {
 	Counts  VerifCounts
 	Tasks   []*VerifTask
 	Workers []*VerifWorker
+	// All invocations, including the root of every size class queue.
+	Invocations []*VerifInvocation
 	// Violations of invariants that are literal transcriptions of
 	// "every task is held by exactly one queue or one worker".
 	Verdict []string
@@ -186,6 +203,8 @@ func (bq *InMemoryBuildQueue) VerifCheckInvariants() (*VerifSnapshot, bool) {
 				ExecuteResponse: t.executeResponse,
 				HasLearner:      t.initialSizeClassLearner != nil,
 				RetryCount:      t.retryCount,
+
+				ExpectedDuration: t.expectedDuration,
 			}
 			if len(t.operations) > 0 {
 				vt.QueueName = t.getCurrentSizeClassQueue().verifName()
@@ -387,6 +406,16 @@ func (bq *InMemoryBuildQueue) VerifCheckInvariants() (*VerifSnapshot, bool) {
 			if i.sizeClassQueue != scq {
 				verdict("invocation %v is filed in another size class queue", verifInvocationIDs(i))
 			}
+			s.Invocations = append(s.Invocations, &VerifInvocation{
+				QueueName:                    scq.verifName(),
+				IDs:                          verifInvocationIDs(i),
+				LastOperationStarted:         i.lastOperationStarted.UnixNano(),
+				FirstQueuedOperationPriority: i.firstQueuedOperationPriority,
+				ExecutingWorkers:             len(i.executingWorkers),
+				DirectlyQueued:               i.queuedOperations.Len(),
+				QueuedChildren:               i.queuedChildren.Len(),
+				IdleWorkers:                  i.idleWorkersCount,
+			})
 			if i.parent != nil {
 				s.Counts.Invocations++
 				if i.invocationKeys[0] == scheduler_invocation.BackgroundLearningKeys[0] {
